@@ -99,7 +99,8 @@ def import_leaf(pkg):
     tops = {n.split('.')[0] for n in NAMES}
     for k in [k for k in sys.modules if k.split('.')[0] in tops]:
         del sys.modules[k]
-    sys.path_importer_cache.clear()
+    # (sys.path_importer_cache is deliberately left alone: dropping stale finders when the path hook comes or goes is
+    # beartype's job - a harness that clears the cache itself hides a hook that forgets to, S7-C06)
     name = pkg + '.leaf'
     mod = importlib.import_module(name)
     LAST_IMPORT.clear()
